@@ -276,6 +276,11 @@ class LifterModel(object):
             alts.append(('reg,rm=reg', {afs.ad: False, rm_reg(adm_): 1}))
             alts.append(('reg,rm=mem', {afs.ad: True, 5: 1, afs.imm: ModVal(32, self.cval(32))}))
         for tag, modr in alts:
+            # the ModRM byte as _dis pre-processes it (mod forced to 3 for cr/dr rows, non-existent segment registers rejected)
+            c0 = (0xC0 if not modr[afs.ad] else 0x80) | (1 << 3) | (2 if not modr[afs.ad] else 5)
+            c1 = X.dis_rmr_pre(modifs, c0)
+            if c1 == 'rejected' or (modr[afs.ad] and (c1 >> 6) == 3):
+                continue
             mafs = {afs.ad: False, (1 + reg_cat): 1}
             if modifs.get(w8):
                 modr[afs.size] = afs.u08
